@@ -354,10 +354,15 @@ class Body:
                 todo.append(s)
         return seen
 
-    def in_loop(self, b):
-        """block b can reach itself."""
+    def in_loop(self, b, user_only=True):
+        """block b can reach itself (by default ignoring the poll loops of
+        `.await`, i.e. cycles through a Yield terminator)."""
         seen = set()
-        todo = list(self.succ(b))
+        def nxt(x):
+            if user_only and self.blocks[x]['t']['k'] == 'yield':
+                return []
+            return self.succ(x)
+        todo = list(nxt(b))
         while todo:
             x = todo.pop()
             if x == b:
@@ -365,7 +370,7 @@ class Body:
             if x in seen:
                 continue
             seen.add(x)
-            todo.extend(self.succ(x))
+            todo.extend(nxt(x))
         return False
 
     # ------------------------------------------------------------ statements
